@@ -1724,7 +1724,14 @@ public:
         return p;
     }
 
-    Outcome execute(const Plan& plan, const Config&) override
+    Outcome execute(const Plan& plan, const Config& cfg) override
+    {
+        Outcome o = execute_once(plan, cfg);
+        if (o.violated && o.v.cls == "C06/leak" && o.v.detail.find("block(s) allocated") != std::string::npos)
+            return execute_once(plan, cfg); // one-time allocations (statics) do not come back; see ownsim
+        return o;
+    }
+    Outcome execute_once(const Plan& plan, const Config&)
     {
         int elem = static_cast<int>(plan.knob("elem", 0) % 3);
         p_elem[elem]++;
